@@ -92,6 +92,11 @@ def check_C06(replay=None):
                 wd, "conc_neg", workers=4, timeout=600)
     if r.violated != "BatchAtomic":
         raise ToolError(f"negative control failed: expected BatchAtomic violation, got {r.violated} / {r.error}")
+    r = run_tlc("Conc", cfg_text(constants={"Shape": 2, "NW": 2, "Keys": "@{1, 2, 3}", "MaxRoll": 1, "Dev": {"TreePinnedBeforeState"}}, invariants=INV),
+                wd, "conc_neg2", workers=4, timeout=600)
+    if not r.violated:
+        raise ToolError(f"negative control failed: pinning the tree outside the critical section should lose a completed write, got {r.error}")
+    out.extra["negative_controls"] = ["SnapshotAtAssignedSeq -> BatchAtomic", f"TreePinnedBeforeState -> {r.violated}"]
     docs = [json.load(open(replay))["doc"]] if replay else conc_docs(rng, 8 if not thorough else 60)
     run_stress(out, wd, docs, prop, devs, "c6_")
     for k in vlib.load_known():
